@@ -36,6 +36,9 @@ type World struct {
 	shards  []*shard
 	tr      *tracer
 	payable *payableOracle
+	// regEpoch: `notifier <epoch>` makes the notifiers of the worlds created AFTERWARDS confirm that epoch to every handler
+	// at registration (nil: handlers hear from the notifier through `epoch` ops only)
+	regEpoch *uint32
 	fault   int // armed fault index for the next call op, -1 = none
 	trace   bool
 	last    *CallResult
@@ -149,6 +152,9 @@ func (w *World) Exec(line string) (obs string) {
 
 	if op == "world" {
 		return w.opWorld(args)
+	}
+	if op == "notifier" {
+		return w.opNotifier(args)
 	}
 	if len(w.shards) == 0 {
 		return obsNoWorld
@@ -280,7 +286,7 @@ func (w *World) newShard(id uint32, nshards int, nameChange bool, activationEpoc
 		id:       id,
 		accounts: newAdapter(w.tr),
 		coord:    &coordinator{self: id, nshards: nshards},
-		notifier: &epochNotifier{},
+		notifier: &epochNotifier{onRegister: w.regEpoch},
 	}
 	dnsCopy := make(map[string]struct{}, len(dns))
 	for k := range dns {
@@ -550,6 +556,24 @@ func (w *World) opRegistrySecond(tok string) string {
 	}
 	sort.Strings(names)
 	return "registry " + strings.Join(names, ",") + " bound=" + strconv.Itoa(bound)
+}
+
+// opNotifier: `notifier <epoch>` / `notifier off` - see World.regEpoch. Works without a world (it configures the next one).
+func (w *World) opNotifier(a []string) string {
+	if len(a) != 1 {
+		return obsBadOp
+	}
+	if a[0] == "off" {
+		w.regEpoch = nil
+		return "notifier ok"
+	}
+	e, ok := parseU64(a[0])
+	if !ok || e > 0xFFFFFFFF {
+		return obsBadOp
+	}
+	e32 := uint32(e)
+	w.regEpoch = &e32
+	return "notifier ok"
 }
 
 func (w *World) opFault(a []string) string {
